@@ -474,6 +474,7 @@ type c17BV struct {
 type c17Bz struct {
 	Gen    string
 	Closed bool `json:",omitempty"`
+	Twice  bool `json:",omitempty"` // Polygon() is called twice, the second result is judged
 	V      []c17BV
 }
 
@@ -508,6 +509,9 @@ func c17RunBezier(s *c17Bz) (o c17BzOut) {
 	}
 	if s.Closed {
 		b.Close()
+	}
+	if s.Twice {
+		b.Polygon() // the curve is asked for its polygon twice (e.g. once to size something, once to build the part)
 	}
 	p, err := b.Polygon()
 	if err != nil {
@@ -900,6 +904,7 @@ func checkC17(c *Ctx) {
 	outs := make([]c17BzOut, nBez)
 	for i := range specs {
 		specs[i] = c17GenBezier(c.Rng("bezier", i))
+		specs[i].Twice = i%3 == 2
 	}
 	warnings := c17CaptureStdout(func() {
 		for i := range specs {
